@@ -30,6 +30,11 @@ let operands sc form args =
   let getL a = List.map (fun z -> Z.mul sc z) (getL a) in
   match form, args with
   | "nn", [a; b] -> (num a, num b, false)
+  (* aliasing: the same object on both sides — the result is a function of the value only *)
+  | "sf", [k; a] -> let x = (if getS k = "vec1" then Idx (KVec, snd (getA a)) else arr_kind (getS k) a) in (x, x, false)
+  | "sfm", [a] -> let x = maybe_of a in (x, x, false)
+  | "sfe", [a] -> let x = either_of a in (x, x, false)
+  | "sft", [a; b] -> let x = Tuple [arr_of_arg a; arr_of_arg b] in (x, x, false)
   | "wi", [_; _; f; a; b] ->        (* integer element types of different width: the model's integers are exact *)
       (match getS f with
        | "vec" -> (Idx (KVec, getL a), Idx (KVec, getL b), false)
@@ -87,10 +92,10 @@ let cl_handler form args =
 
 let () =
   List.iter (fun f -> register ("eq_" ^ f) (eq_handler f); register ("cl_" ^ f) (cl_handler f))
-    ["nn"; "ii"; "dii"; "aa"; "ia"; "ai"; "mm"; "ma"; "am"; "ee"; "ea"; "ae"; "en"; "ne"; "tt"; "tm"; "mt"; "wi"];
+    ["nn"; "ii"; "dii"; "aa"; "ia"; "ai"; "mm"; "ma"; "am"; "ee"; "ea"; "ae"; "en"; "ne"; "tt"; "tm"; "mt"; "wi"; "sf"; "sfm"; "sfe"; "sft"];
   (* utils::apply_isequal / apply_isclose: same reference, same model (the maybe arms of the public entry) *)
   List.iter (fun f -> register ("aeq_" ^ f) (eq_handler f); register ("acl_" ^ f) (cl_handler f))
-    ["nn"; "aa"; "mm"; "ma"; "am"; "tt"; "tm"];
+    ["nn"; "aa"; "mm"; "ma"; "am"; "tt"; "tm"; "sf"; "sfm"; "sft"];
   (* layout suffixes: the operands' arrays are row-/column-major objects with the same logical content *)
   List.iter (fun f -> List.iter (fun l ->
       register ("eq_" ^ f ^ "." ^ l) (eq_handler f); register ("cl_" ^ f ^ "." ^ l) (cl_handler f)) ["rr"; "rc"; "cr"; "cc"])
